@@ -32,6 +32,8 @@ class SurfPool:
                 base = rnd.choice(self.surfs)
                 params = list(base.params)
                 params[-1] = v
+                if base.mn in ('KZ', 'KX'):
+                    params = [v] + list(base.params[1:])
                 if base.mn in ('SO', 'S', 'CZ', 'C/X'):
                     self.pre.append(z3.Real(list(v.vars())[0]) > 0)
                 self.surfs.append(dk.Surf(sid, base.mn, params))
@@ -52,6 +54,8 @@ class SurfPool:
             elif kind == 'c/x':
                 self.pre.append(z3.Real(list(v.vars())[0]) > 0)
                 self.surfs.append(dk.Surf(sid, 'c/x', [Fr(rnd.randint(-1, 1)), Fr(rnd.randint(-1, 1)), v]))
+            elif kind == 'kz1':
+                self.surfs.append(dk.Surf(sid, rnd.choice(['kz', 'kx']), [v, Fr(rnd.choice([1, Fr(1, 4)])), Fr(rnd.choice([1, -1]))]))
             elif kind == 'p':
                 nrm = rnd.choice([(1, 1, 0), (1, -2, 2), (3, 0, 4), (0, 1, -1), (2, 1, -2)])
                 self.surfs.append(dk.Surf(sid, 'p', [Fr(nrm[0]), Fr(nrm[1]), Fr(nrm[2]), v]))
@@ -331,7 +335,8 @@ def like_deck(rnd, scenario, nsym=3):
     elif scenario == 'fill':
         # the base is a filled container; the copy changes the fill / its placement
         d.surfs = [dk.Surf(1, 'so', [r]), dk.Surf(2, 'px', [bud.num('a', pre)]), dk.Surf(3, 'py', [bud.num('b', pre)])]
-        d.cells.append(dk.Cell(1, ('s', -1), imp=1, fill=1))
+        d.cells.append(dk.Cell(1, ('s', -1), imp=1, fill=1,
+                               filltr=rand_tr(rnd, 'h', pre, budget=bud, rot=False) if rnd.random() < 0.5 else None))
         m1, r1 = mat()
         m2, r2 = mat()
         d.cells.append(dk.Cell(2, ('s', -2), mat=m1, rho=r1, imp=1, u=1))
